@@ -9,6 +9,7 @@ import (
 	"os/exec"
 	"path/filepath"
 	"runtime"
+	"runtime/pprof"
 	"sort"
 	"strconv"
 	"strings"
@@ -62,6 +63,13 @@ func loadKnown() (open map[string]bool, entries []knownEntry) {
 		}
 	}
 	return
+}
+
+// IsKnown tells whether an open known finding with this key is on file (engines use it to decide whether a
+// run can go on after reporting; it never suppresses a report).
+func IsKnown(prop, oracle, sig string) bool {
+	open, _ := loadKnown()
+	return open[prop+"/"+oracle+"/"+sig]
 }
 
 type failure struct {
@@ -264,6 +272,13 @@ func cmdWorker(args []string) int {
 	if e == nil {
 		fmt.Fprintln(os.Stderr, "no such engine", *eng)
 		return ExitHarness
+	}
+	if pf := os.Getenv("VERIF_CPUPROFILE"); pf != "" {
+		// diagnostics only (tuning engine speed); never set by the registered commands
+		if f, err := os.Create(fmt.Sprintf("%s.%d", pf, *from)); err == nil {
+			pprof.StartCPUProfile(f)
+			defer pprof.StopCPUProfile()
+		}
 	}
 	res := runWorker(e, propSet(*props), *tier, *seed, *from, *stride, *count, time.Now().Add(time.Duration(*secs)*time.Second), *hashes)
 	b, _ := json.Marshal(res)
